@@ -457,6 +457,44 @@ int main(int argc, char **argv)
 						v_nontrivial(v_mix(5000 + ds, lsi * 100 + cl));
 					}
 		}
+		/* mixed magnitudes: 8..256 literals at the top of the domain (2^44-1, or 2^43) next to literals with counts 1..3, with sparse or rich
+		 * length/distance counts: the total exceeds 2^48 (any internal scaling or saturation must not lose the small counts - the
+		 * subset builder owes every literal with a non-zero count a code) */
+		{
+			static const int nbigs[] = { 8, 15, 16, 17, 40, 120, 253 };
+			for (int bi = 0; bi < 7; bi++)
+				for (uint64_t tiny = 1; tiny <= 3; tiny++)
+					for (int rich = 0; rich < 2; rich++)
+						for (int top = 0; top < 2; top++) {
+							if (!v_mine(unit++))
+								continue;
+							if (nfail > 20 || v_deadline_hit())
+								goto done;
+							memset(&H, 0, sizeof H);
+							int placed = 0;
+							for (int i = 0; placed < nbigs[bi] && i < 256; i++) {
+								int sym = (i * 7) % 256;
+								if (sym == 9 || sym == 200 || sym == 'z')
+									continue;
+								H.lit_len_histogram[sym] = top ? (1ull << 44) - 1 : 1ull << 43;
+								placed++;
+							}
+							H.lit_len_histogram[9] = tiny;
+							H.lit_len_histogram[200] = tiny;
+							H.lit_len_histogram['z'] = tiny + 1;
+							if (rich) {
+								for (int i = 257; i < 286; i++) H.lit_len_histogram[i] = (1ull << 30) + i;
+								for (int i = 0; i < 30; i++) H.dist_histogram[i] = (1ull << 20) + i;
+							} else {
+								H.lit_len_histogram[257] = 5;
+								H.dist_histogram[3] = 5;
+							}
+							snprintf(hdesc, sizeof hdesc, "histogram{%d literals at %s, literals 09, c8 at %llu and 'z' at %llu, %s length/distance counts}", nbigs[bi], top ? "2^44-1" : "2^43", (unsigned long long)tiny,
+								 (unsigned long long)tiny + 1, rich ? "rich" : "sparse");
+							run_hist(1);
+							v_nontrivial(v_mix(7000 + bi, tiny * 4 + rich * 2 + top));
+						}
+		}
 		for (int v = 0; v < 3; v++) {
 			if (!v_mine(unit++))
 				continue;
